@@ -725,6 +725,9 @@ class Interp:
     def st_If(self, n, s):
         outs = {}
         for s2, r in self.branch(n.test, s):
+            if self.precise_exc and '__exc' in s2.env:
+                outs.setdefault('fall', []).append((s2, None))       # the test itself raised: neither arm runs
+                continue
             blk = n.body if r else n.orelse
             res = self.block(blk, [s2]) if blk else {'fall': [(s2, None)]}
             for k, lst in res.items():
@@ -1404,6 +1407,9 @@ class Interp:
         outs = []
         results = self.inline(test, s) if isinstance(test, ast.Call) else None
         for s2, v in (results if results is not None else self.expr(test, s)):
+            if self.precise_exc and '__exc' in s2.env:
+                outs.append((s2, False))          # evaluating the test raised: the caller routes the state to the handler
+                continue
             t = self.truth_in(v, s2)
             if t is not None:
                 if self.record_conds:
@@ -1709,10 +1715,14 @@ class Interp:
             return ('boundmethod', base, attr)
         if isinstance(base, _pathlib.PurePosixPath) and attr in ('name', 'stem', 'suffix', 'parent', 'parts', 'suffixes'):
             return getattr(base, attr)
-        if isinstance(base, (list, dict)) and attr in ('append', 'extend', 'insert', 'pop', 'copy', 'keys', 'values', 'items', 'get', 'update', 'clear', 'index', 'remove', 'reverse', 'setdefault'):
+        if isinstance(base, (list, dict)) and attr in ('append', 'extend', 'insert', 'pop', 'copy', 'keys', 'values', 'items', 'get', 'update', 'clear', 'index', 'remove', 'reverse', 'setdefault') \
+           and hasattr(type(base), attr):
             return ('boundmethod', base, attr)
         if isinstance(base, set) and attr in ('add', 'discard', 'remove', 'update', 'clear', 'copy', 'pop', 'union', 'intersection', 'difference', 'issubset', 'issuperset'):
             return ('boundmethod', base, attr)
+        if self.precise_exc and self.heap and (base is None or (isinstance(base, (list, dict, tuple, int, float, bool, str)) and not isinstance(base, (ListObj, TextObj, TokStr, M._StringLetters)))) \
+           and not hasattr(type(base), attr):
+            s.env['__exc'] = 'AttributeError'         # a Python value of a builtin type has no such attribute
         return TOP
 
     def ev_Subscript(self, n, s):
@@ -2103,6 +2113,19 @@ class Interp:
                 return M._CMPOPS[type(op)](a, b)
             except Exception:
                 return None
+        if isinstance(op, (ast.Eq, ast.NotEq)) and isinstance(a, (list, tuple)) and isinstance(b, (list, tuple)) and type(a) is type(b):
+            # sequences with symbolic elements: different lengths differ, equal lengths compare element by element
+            if len(a) != len(b):
+                return isinstance(op, ast.NotEq)
+            res = True
+            for x, y in zip(a, b):
+                r = True if x is y else self.compare(ast.Eq(), x, y)
+                if r is None:
+                    return None
+                if not r:
+                    res = False
+                    break
+            return res if isinstance(op, ast.Eq) else not res
         if isinstance(a, Sym) and isinstance(b, Sym) and isinstance(op, (ast.Eq, ast.NotEq)):
             if a == b:
                 return isinstance(op, ast.Eq)
